@@ -1,15 +1,15 @@
 CONSTANTS
   N = 3
-  MaxCmd = 1
+  MaxCmd = 2
   MaxVar = 1
   NCtx = 0
-  Nesting = TRUE
+  Nesting = FALSE
   TaskAllow = FALSE
-  AtomicLaunch = FALSE
-  CondErr = FALSE
+  AtomicLaunch = TRUE
+  CondErr = TRUE
   ErrFirst = TRUE
   HookKinds = {"none"}
-INIT InitDouble
+INIT InitCErr
 NEXT Next
-INVARIANTS NoDoubleLaunch
+INVARIANTS NeverQuietWithWork
 CHECK_DEADLOCK FALSE
